@@ -79,9 +79,9 @@ Model/NumTraits.vos Model/NumTraits.vok Model/NumTraits.required_vos: Model/NumT
 Run/RunC18.vo Run/RunC18.glob Run/RunC18.v.beautified Run/RunC18.required_vo: Run/RunC18.v Base.vo Prim.vo Model/Core.vo Model/Shift.vo Model/AddSub.vo Model/Mul.vo Model/Div.vo Model/Bits.vo Model/Pow.vo Model/NumTraits.vo Run/RunBase.vo
 Run/RunC18.vio: Run/RunC18.v Base.vio Prim.vio Model/Core.vio Model/Shift.vio Model/AddSub.vio Model/Mul.vio Model/Div.vio Model/Bits.vio Model/Pow.vio Model/NumTraits.vio Run/RunBase.vio
 Run/RunC18.vos Run/RunC18.vok Run/RunC18.required_vos: Run/RunC18.v Base.vos Prim.vos Model/Core.vos Model/Shift.vos Model/AddSub.vos Model/Mul.vos Model/Div.vos Model/Bits.vos Model/Pow.vos Model/NumTraits.vos Run/RunBase.vos
-Properties/C18.vo Properties/C18.glob Properties/C18.v.beautified Properties/C18.required_vo: Properties/C18.v Base.vo Prim.vo Model/Digit.vo Model/Core.vo Model/Shift.vo Model/AddSub.vo Model/Mul.vo Model/Div.vo Model/Bits.vo Model/Pow.vo Model/NumTraits.vo Proofs/NumTraitsZ.vo Proofs/NumTraitsDeps.vo Proofs/NumTraits.vo
-Properties/C18.vio: Properties/C18.v Base.vio Prim.vio Model/Digit.vio Model/Core.vio Model/Shift.vio Model/AddSub.vio Model/Mul.vio Model/Div.vio Model/Bits.vio Model/Pow.vio Model/NumTraits.vio Proofs/NumTraitsZ.vio Proofs/NumTraitsDeps.vio Proofs/NumTraits.vio
-Properties/C18.vos Properties/C18.vok Properties/C18.required_vos: Properties/C18.v Base.vos Prim.vos Model/Digit.vos Model/Core.vos Model/Shift.vos Model/AddSub.vos Model/Mul.vos Model/Div.vos Model/Bits.vos Model/Pow.vos Model/NumTraits.vos Proofs/NumTraitsZ.vos Proofs/NumTraitsDeps.vos Proofs/NumTraits.vos
+Properties/C18.vo Properties/C18.glob Properties/C18.v.beautified Properties/C18.required_vo: Properties/C18.v Base.vo Prim.vo Model/Digit.vo Model/Core.vo Model/Shift.vo Model/AddSub.vo Model/Mul.vo Model/Div.vo Model/Bits.vo Model/Pow.vo Model/NumTraits.vo Proofs/NumTraitsZ.vo Proofs/NumTraitsDeps.vo Proofs/NumTraitsDepsCheck.vo Proofs/NumTraits.vo
+Properties/C18.vio: Properties/C18.v Base.vio Prim.vio Model/Digit.vio Model/Core.vio Model/Shift.vio Model/AddSub.vio Model/Mul.vio Model/Div.vio Model/Bits.vio Model/Pow.vio Model/NumTraits.vio Proofs/NumTraitsZ.vio Proofs/NumTraitsDeps.vio Proofs/NumTraitsDepsCheck.vio Proofs/NumTraits.vio
+Properties/C18.vos Properties/C18.vok Properties/C18.required_vos: Properties/C18.v Base.vos Prim.vos Model/Digit.vos Model/Core.vos Model/Shift.vos Model/AddSub.vos Model/Mul.vos Model/Div.vos Model/Bits.vos Model/Pow.vos Model/NumTraits.vos Proofs/NumTraitsZ.vos Proofs/NumTraitsDeps.vos Proofs/NumTraitsDepsCheck.vos Proofs/NumTraits.vos
 Proofs/NumTraitsZ.vo Proofs/NumTraitsZ.glob Proofs/NumTraitsZ.v.beautified Proofs/NumTraitsZ.required_vo: Proofs/NumTraitsZ.v Base.vo Prim.vo Model/NumTraits.vo
 Proofs/NumTraitsZ.vio: Proofs/NumTraitsZ.v Base.vio Prim.vio Model/NumTraits.vio
 Proofs/NumTraitsZ.vos Proofs/NumTraitsZ.vok Proofs/NumTraitsZ.required_vos: Proofs/NumTraitsZ.v Base.vos Prim.vos Model/NumTraits.vos
@@ -91,3 +91,6 @@ Proofs/NumTraitsDeps.vos Proofs/NumTraitsDeps.vok Proofs/NumTraitsDeps.required_
 Proofs/NumTraits.vo Proofs/NumTraits.glob Proofs/NumTraits.v.beautified Proofs/NumTraits.required_vo: Proofs/NumTraits.v Base.vo Prim.vo Model/Digit.vo Model/Core.vo Model/Shift.vo Model/AddSub.vo Model/Mul.vo Model/Div.vo Model/Bits.vo Model/Pow.vo Model/NumTraits.vo Proofs/NumTraitsZ.vo Proofs/NumTraitsDeps.vo
 Proofs/NumTraits.vio: Proofs/NumTraits.v Base.vio Prim.vio Model/Digit.vio Model/Core.vio Model/Shift.vio Model/AddSub.vio Model/Mul.vio Model/Div.vio Model/Bits.vio Model/Pow.vio Model/NumTraits.vio Proofs/NumTraitsZ.vio Proofs/NumTraitsDeps.vio
 Proofs/NumTraits.vos Proofs/NumTraits.vok Proofs/NumTraits.required_vos: Proofs/NumTraits.v Base.vos Prim.vos Model/Digit.vos Model/Core.vos Model/Shift.vos Model/AddSub.vos Model/Mul.vos Model/Div.vos Model/Bits.vos Model/Pow.vos Model/NumTraits.vos Proofs/NumTraitsZ.vos Proofs/NumTraitsDeps.vos
+Proofs/NumTraitsDepsCheck.vo Proofs/NumTraitsDepsCheck.glob Proofs/NumTraitsDepsCheck.v.beautified Proofs/NumTraitsDepsCheck.required_vo: Proofs/NumTraitsDepsCheck.v Base.vo Prim.vo Model/Digit.vo Model/Core.vo Model/Shift.vo Model/AddSub.vo Model/Mul.vo Model/Div.vo Model/Bits.vo Model/Pow.vo
+Proofs/NumTraitsDepsCheck.vio: Proofs/NumTraitsDepsCheck.v Base.vio Prim.vio Model/Digit.vio Model/Core.vio Model/Shift.vio Model/AddSub.vio Model/Mul.vio Model/Div.vio Model/Bits.vio Model/Pow.vio
+Proofs/NumTraitsDepsCheck.vos Proofs/NumTraitsDepsCheck.vok Proofs/NumTraitsDepsCheck.required_vos: Proofs/NumTraitsDepsCheck.v Base.vos Prim.vos Model/Digit.vos Model/Core.vos Model/Shift.vos Model/AddSub.vos Model/Mul.vos Model/Div.vos Model/Bits.vos Model/Pow.vos
